@@ -204,8 +204,8 @@ def parse_caps(s):
     return out
 
 
-def check_sweep(out, lo, hi, need, spec, fill, with_z):
-    """need/spec None: only the safety clauses (any input).  fill: what the bytes behind the encoding hold."""
+def check_sweep(out, lo, hi, need, spec, with_z):
+    """need/spec None: only the safety clauses (any input)."""
     if out.startswith("crash"):
         return "construction crashed (store or read outside a block): " + out
     f = C08.fields(out)
@@ -227,10 +227,10 @@ def check_sweep(out, lo, hi, need, spec, fill, with_z):
             return "capacity %d: return value exceeds len" % cap
         ret = int(ret)
         buf = C08.unhx_z(blk)
-        if len(buf) != cap:
-            return "capacity %d: block of %d bytes reported" % (cap, len(buf))
         if ret > cap:
             return "capacity %d: returned %d" % (cap, ret)
+        if len(buf) != (cap if ret == 0 else ret):
+            return "capacity %d: %d bytes reported" % (cap, len(buf))
         if ret == 0 and any(buf):
             return "capacity %d: returned 0 but the buffer is not zero-filled" % cap
         if size is not None:
@@ -238,15 +238,15 @@ def check_sweep(out, lo, hi, need, spec, fill, with_z):
                 return "capacity %d < %d: returned %d instead of 0" % (cap, size, ret)
             if cap >= size and ret != size:
                 return "capacity %d >= %d: returned %d" % (cap, size, ret)
-        if spec is not None and cap >= need and buf != spec + fill * (cap - need):
-            return "capacity %d: bytes differ from the encoding / bytes behind it" % cap
+        if spec is not None and cap >= need and buf != spec:
+            return "capacity %d: bytes written differ from the encoding" % cap
     return None
 
 
 def tlink_expected(maxmsg, spec):
     if len(spec) > maxmsg:
-        return "w=%s n=0" % C08.hexz(b"\0" * maxmsg)
-    return "w=%s n=1 m=%d:%s" % (C08.hexz(spec + b"\0" * (maxmsg - len(spec))), len(spec), hx(spec))
+        return "n=0 w=%s" % C08.hexz(b"\0" * maxmsg)
+    return "n=1 m=%d:%s" % (len(spec), hx(spec))
 
 
 def oracle(op, out):
@@ -256,8 +256,8 @@ def oracle(op, out):
         args = parse_args(tags, w[6:])
         if C01.wellformed(addr, tags, args):
             spec = C01.encode(addr, tags, args)
-            return check_sweep(out, lo, hi, len(spec), spec, b"\xaa", True)
-        return check_sweep(out, lo, hi, None, None, None, True)
+            return check_sweep(out, lo, hi, len(spec), spec, True)
+        return check_sweep(out, lo, hi, None, None, True)
     if w[0] == "B":
         lo, hi = int(w[1]), int(w[2])
         t, _ = C08.parse_tokens(w, 3)
@@ -265,7 +265,7 @@ def oracle(op, out):
         if not ok:
             return None
         spec = C08.enc(t)
-        return check_sweep(out, lo, hi, len(spec), spec, b"\0", False)
+        return check_sweep(out, lo, hi, len(spec), spec, False)
     if out.startswith("crash"):
         return "wrapper crashed (store or read outside a block): " + out
     if w[0] == "T":
